@@ -75,3 +75,16 @@ Fixpoint any_m {B} (f : B -> result bool) (l : list B) : result bool :=
   | [] => Ok false
   | x :: l' => do b <- f x; if b then Ok true else any_m f l'
   end.
+
+(* while loops: recursion on fuel; step says continue (inl), finished (inr), or - while_x - finished / returned a value.  Running out of fuel is
+   the error value OtherErr (the loop body did not decrease its counter) *)
+Fixpoint while_m {A} (fuel : nat) (step : A -> result (A + A)) (a : A) : result A :=
+  match fuel with
+  | O => Err OtherErr
+  | S f => do r <- step a; match r with inl a' => while_m f step a' | inr a' => Ok a' end
+  end.
+Fixpoint while_x {A R} (fuel : nat) (step : A -> result (A + (A + R))) (a : A) : result (A + R) :=
+  match fuel with
+  | O => Err OtherErr
+  | S f => do r <- step a; match r with inl a' => while_x f step a' | inr x => Ok x end
+  end.
